@@ -3,7 +3,7 @@ from standin.props.roundtrip import *
 from flamapy.metamodels.fm_metamodel.transformations import UVLWriter, UVLReader
 
 UVL_LOGIC = ['AND', 'OR', 'IMPLIES', 'REQUIRES', 'EXCLUDES', 'EQUIVALENCE']
-VALUES = [None, True, False, 0, 3, -7, 2.5, 0.25, 'text', 'two words', 'v1.2', 'a,b {c} [d] "q" #1', 'naïve ü', ['x.y'], [1, 2], [1, 'a'], [True, 2.5], {'k': 1}, {'k': {'n': 2}}, [[1], [2]]]
+VALUES = [None, True, False, 0, 3, -7, 2.5, 0.25, 'text', 'two words', 'v1.2', {'z': 0, 'f': False, 'e': 0.0, 'n': None}, {'o': {'retries': 0, 'on': False}}, [0, False], 'a,b {c} [d] "q" #1', 'naïve ü', ['x.y'], [1, 2], [1, 'a'], [True, 2.5], {'k': 1}, {'k': {'n': 2}}, [[1], [2]]]
 UVL_HOSTILE = ['my root', 'a-b', '1st', '_under', 'features', 'mandatory', 'true', 'Boolean', 'and', 'OR', 'NOT', 'Ünï', '日本', 'p(q)', 'a,b',
                'sum', 'A AND B', 'requires', 'x y z', '#tag', 'a/b', 'AND', 'xor', 'IMPLIES1', 'Real', 'cardinality', 'constraints',
                'alternative', 'optional', 'or', 'false', 'len', 'avg', 'String', 'Integer', 'namespace', 'imports', 'include', 'as', 'e1', '2x', 'a b']
